@@ -34,6 +34,10 @@ const CONS: usize = 1;
 const GO: u8 = 0;
 const CANCEL: u8 = 1;
 const SPURIOUS: u8 = 2;
+const MAX_SEGMENTS: u64 = 1000;
+/// set once a livelock was seen: the remaining schedules of the sweep are skipped (each would spin to the cap again)
+static LIVELOCK_SEEN: AtomicBool = AtomicBool::new(false);
+static REPLAYING: AtomicBool = AtomicBool::new(false);
 
 #[derive(Clone, Copy, Debug, PartialEq, Eq)]
 enum Op {
@@ -287,6 +291,7 @@ struct ExecOut {
     reached: BTreeSet<&'static str>,
     outcome: String,
     cancels_used: u8,
+    skipped: bool,
 }
 
 fn is_hook_point(l: &str) -> bool {
@@ -296,8 +301,13 @@ fn is_hook_point(l: &str) -> bool {
 /// One complete execution under the chooser's schedule.
 fn run_exec(prog: &Prog, ch: &mut Chooser) -> ExecOut {
     let mut out = ExecOut::default();
+    if LIVELOCK_SEEN.load(Ordering::Relaxed) && !REPLAYING.load(Ordering::Relaxed) {
+        out.skipped = true;
+        return out;
+    }
     let (tx, rx) = hook::merge_channel::<Batch>();
-    let b = Baton::new(2);
+    // one segment is a few shared-memory steps (microseconds); 10 s without reaching the next point = the call spins or blocks
+    let b = Baton::with_deadline(2, Duration::from_secs(10));
     let obs = Mutex::new(Obs::default());
     let cmd = AtomicU8::new(GO);
     let flag = Arc::new(Flag { woken: AtomicBool::new(false) });
@@ -394,6 +404,14 @@ fn run_exec(prog: &Prog, ch: &mut Chooser) -> ExecOut {
                 }
             }
             out.segments += 1;
+            if out.segments > MAX_SEGMENTS {
+                // every program needs well under a hundred segments; thousands mean a thread keeps running inside one
+                // operation (passing yield points in a loop) without ever returning or parking
+                let who = if a.tid == PROD { "producer" } else { "consumer" };
+                LIVELOCK_SEEN.store(true, Ordering::Relaxed);
+                obs.lock().unwrap().complain(format!("poll:does-not-return: after {MAX_SEGMENTS} segments the {who} is still running inside one operation (it passes yield points in a loop and never returns or parks): livelock"));
+                break;
+            }
             {
                 let from = match if a.tid == PROD { &ps } else { &cs } {
                     Stop::Point(l) => *l,
@@ -453,6 +471,9 @@ fn run_exec(prog: &Prog, ch: &mut Chooser) -> ExecOut {
 }
 
 fn key_of(complaint: &str) -> String {
+    if complaint.starts_with("poll:does-not-return") {
+        return "poll:does-not-return".into();
+    }
     complaint.split(':').next().unwrap_or("other").to_string()
 }
 
@@ -465,11 +486,15 @@ struct Stats {
 }
 
 fn main() {
+    // parent: runs the leg in a child; a segment that never reaches its next point is reported by the child and
+    // becomes a violation here (the stuck OS thread cannot be joined, so the child process is given up)
+    h_drv::watchdog::guard("C19", "thread", "model_checking", "E-THREAD", "poll:does-not-return");
     vcore::quiet_panics();
     let r = Report::new("C19", "thread", "model_checking", "E-THREAD");
     if let Some(case) = r.replay_case() {
         let prog = Prog::from_json(&case["program"]);
         let choices: Vec<usize> = case["choices"].as_array().map(|a| a.iter().map(|x| x.as_u64().unwrap_or(0) as usize).collect()).unwrap_or_default();
+        REPLAYING.store(true, Ordering::Relaxed);
         println!("replaying program {} with schedule {:?}", prog.name(), choices);
         let mut outs = Vec::new();
         for _ in 0..2 {
@@ -488,6 +513,9 @@ fn main() {
             println!("  {l}");
         }
         if let Some(m) = &outs[0].machinery {
+            if m.contains("did not reach its next point") {
+                h_drv::watchdog::report_hang(case.clone(), 10.0);
+            }
             vcore::machinery_error(m);
         }
         if let Some(c) = &outs[0].complaint {
@@ -529,6 +557,9 @@ fn main() {
         let res = explore(&opts, |ch| {
             let out = run_exec(prog, ch);
             if let Some(m) = &out.machinery {
+                if m.contains("did not reach its next point") {
+                    h_drv::watchdog::report_hang(json!({"program": prog.to_json(), "choices": ch.choices(), "note": m}), 10.0);
+                }
                 vcore::machinery_error(&format!("program {}: {m}", prog.name()));
             }
             let n = n_exec.fetch_add(1, Ordering::Relaxed);
@@ -537,11 +568,11 @@ fn main() {
                 inner.fetch_add(1, Ordering::Relaxed);
             }
             // determinism audit: replay a 1-in-k subset of schedules and compare the whole observation log
-            if n % audit_every == 0 && ch.diverged.is_none() {
+            if n % audit_every == 0 && ch.diverged.is_none() && !out.skipped {
                 let choices = ch.choices();
                 let (_, ch2) = replay_one(&choices, |c2| {
                     let again = run_exec(prog, c2);
-                    if again.log != out.log {
+                    if !again.skipped && !out.skipped && again.log != out.log {
                         vcore::machinery_error(&format!("determinism audit failed for program {} schedule {:?}", prog.name(), choices));
                     }
                     Ok(())
@@ -583,15 +614,17 @@ fn main() {
                 continue;
             }
             // re-run the schedule to attach its observation log
+            REPLAYING.store(true, Ordering::Relaxed);
             let mut log = Vec::new();
             let _ = replay_one(&v.choices, |c| {
                 log = run_exec(prog, c).log;
                 Ok(())
             });
+            REPLAYING.store(false, Ordering::Relaxed);
             r.violation(
                 &key,
-                &format!("{} [program {}, schedule {:?}, {} preemption(s)]", v.what, prog.name(), v.choices, v.cost),
-                json!({"program": prog.to_json(), "choices": v.choices, "preemptions": v.cost, "log": log}),
+                &format!("{} [program {}, schedule {:?}{}, {} preemption(s)]", v.what, prog.name(), &v.choices[..v.choices.len().min(40)], if v.choices.len() > 40 { " ..." } else { "" }, v.cost),
+                json!({"program": prog.to_json(), "choices": v.choices.iter().copied().take(64).collect::<Vec<_>>(), "preemptions": v.cost, "log": log.iter().take(60).collect::<Vec<_>>()}),
             );
         }
         if r.violation_count() == 0 {
@@ -618,7 +651,7 @@ fn main() {
         r.counters.add(&format!("preempted_at:{l}"), *n);
     }
     let missing: Vec<&&str> = hook::POINTS.iter().filter(|p| !s.reached.contains(**p)).collect();
-    if !missing.is_empty() {
+    if !missing.is_empty() && !LIVELOCK_SEEN.load(Ordering::Relaxed) {
         vcore::machinery_error(&format!("hook points never reached: {missing:?} (the points are not compiled in or the programs do not reach them)"));
     }
     r.note("hook_points_reached", json!(s.reached.iter().collect::<Vec<_>>()));
